@@ -390,7 +390,7 @@ func runProp(prop string) int {
 	}
 	// rule coverage: every rule must have matched at least one call site
 	for _, r := range rules {
-		if ruleHits[r.Name] == 0 && *flagFunc == "" {
+		if ruleHits[r.Name] == 0 && *flagFunc == "" && len(r.Requires) > 0 {
 			fmt.Printf("BROKEN-CHECK callrule %s matched no call site (vacuous)\n", r.Name)
 			return 2
 		}
